@@ -3,9 +3,10 @@ import json
 
 ID = "C06"
 HARNESS_TEST = "TestC06"
-COQ_MODEL = ["C06/Check.v"]
-COQ_PROOF_DEPS = ["C06/Proofs.v", "C06/ProofsExact.v"]
-COQ_OBLIG = ["C06/Property.v"]
+GEN = "c06"
+COQ_MODEL = ["C06/Check.v", "C06/Paths.v", "Gen/C06Facts.v"]
+COQ_PROOF_DEPS = ["C06/Proofs.v", "C06/ProofsExact.v", "C06/ProofsPaths.v"]
+COQ_OBLIG = ["C06/Property.v", "Gen/C06Oblig.v"]
 CASES_HEADER = "Require Import Nib.C06.Model Nib.C06.Spec Nib.C06.Check."
 CASE_TYPE = "case"
 MISMATCH_FN = "mismatch"
